@@ -1625,12 +1625,40 @@ def _run_repeated(case, ck, info):
     acc = []
     for nm, mk in (("Uniform(1, 3)", lambda: Uniform(1.0, 3.0)),
                    ("Gaussian(2, 0.5)", lambda: Gaussian(2.0, 0.5))):
-        for en, f in (("P - P", lambda p: p - p), ("P / P", lambda p: p / p),
-                      ("2 * P - P", lambda p: 2 * p - p),
-                      ("(P + 1) * (P - 1)", lambda p: (p + 1) * (p - 1)),
-                      ("np.sqrt(P * P)", lambda p: np.sqrt(p * p))):
+        for en, f, build in (
+                ("P - P", lambda p: p - p, None),
+                ("P / P", lambda p: p / p, None),
+                ("2 * P - P", lambda p: 2 * p - p, None),
+                ("(P + 1) * (P - 1)", lambda p: (p + 1) * (p - 1), None),
+                ("np.sqrt(P * P)", lambda p: np.sqrt(p * p), None),
+                # a derived prior that was given a name on the way is still
+                # a function of the same P
+                ("(P + 1).renamed('s') - P", lambda p: (p + 1) - p,
+                 lambda P: (P + 1).renamed("s") - P),
+                ("(2 * P).renamed('d') - P", lambda p: 2 * p - p,
+                 lambda P: (2 * P).renamed("d") - P),
+                ("P * (P + 1).renamed('s')", lambda p: p * (p + 1),
+                 lambda P: P * (P + 1).renamed("s")),
+                ("(P ** 2).renamed('q') / P", lambda p: p ** 2 * (1 / p),
+                 lambda P: (P ** 2).renamed("q") / P),
+                ("((P + 1).renamed('s') * 2).renamed('t') - P",
+                 lambda p: (p + 1) * 2 - p,
+                 lambda P: ((P + 1).renamed("s") * 2).renamed("t") - P),
+                ("(-P).renamed('m') + P", lambda p: -p + p,
+                 lambda P: (-P).renamed("m") + P)):
             P = mk()
-            E = f(P)
+            try:
+                E = (build or f)(P)
+            except Exception as e:
+                ck.true("derived-sample", False, "building %s with P=%s "
+                        "raised %s: %s" % (en, nm, type(e).__name__, e))
+                continue
+            if build is not None:
+                g_want = float(f(float(P.guess)))
+                ck.true("derived-guess", abs(float(E.guess) - g_want) <=
+                        1e-12 * max(1.0, abs(g_want)), "(%s).guess with P=%s "
+                        "is %r, the expression on P's guess gives %r" %
+                        (en, nm, E.guess, g_want))
             for size in (None, 1, 5):
                 np.random.seed(4711)
                 base = P.sample(size)
